@@ -48,6 +48,20 @@ Theorem c20_documented_order_read : forall t b argv i u,
 Proof. exact documented_order_read. Qed.
 Print Assumptions c20_documented_order_read.
 
+(* -old-ordering reaches every Geometry: in a tool that declares the flag, every Geometry an option block builds gets
+   OLD_ORDERING = (the flag is on the command line), for every command line.  [b_geo] is extracted by the translator
+   from the constructor calls `Geometry x(a,b[,flag])` of each block. *)
+Theorem c20_old_ordering_reaches_every_geometry : forall t b argv o,
+  In t gen_tools -> ordering_var t <> None -> In b (t_blocks t) -> In o (block_orderings t argv b) ->
+  o = bool_value argv tok_old_ordering false.
+Proof. exact old_ordering_reaches_every_geometry. Qed.
+Print Assumptions c20_old_ordering_reaches_every_geometry.
+
+Example c20_ex_assemble_has_ordering_flag :
+  ordering_var tool_om_assemble <> None /\
+  List.length (filter (fun b => negb (match b_geo b with [] => true | _ => false end)) (t_blocks tool_om_assemble)) = 10.
+Proof. vm_compute. split; [discriminate|reflexivity]. Qed.
+
 (* no tool, on no command line, reads argv[argc] or beyond *)
 Theorem c20_no_read_outside_argv : forall t argv, In t gen_tools -> r_final (run_tool t argv) <> FCrash.
 Proof. exact no_read_outside_argv. Qed.
